@@ -94,13 +94,11 @@ pub trait AggValidFinal<T: IsNone>: Vec1View<T> {
             let corr: f64 = self
                 .titer()
                 .vcorr_pearson(self.titer().vshift(life as i32, None), min_periods);
-            if corr < 0.5 {
-                (last_n, n) = (last_n, life);
-            } else if corr > 0.5 {
-                (last_n, n) = (life, last_n);
+            // keep the bracket: last_n is above 0.5, n is not (an undefined correlation is not)
+            if corr > 0.5 {
+                last_n = life;
             } else {
                 n = life;
-                break;
             }
         }
         n
